@@ -175,8 +175,8 @@ func genC12() *rapid.Generator[prog.Program] {
 	mk := func(snap bool) *rapid.Generator[prog.Program] {
 		return prog.Gen(prog.GenOpts{
 			MinClients: 2, MaxClients: pick(4, 5), MaxSteps: pick(30, 50), MaxTail: 6,
-			EditOps:   []string{"pset", "pset", "pset", "pclear", "rootset", "cinc", "tedit", "oset"},
-			SchedOps:  sched, SyncWeight: 8, OfflineBias: true, Snapshots: snap,
+			EditOps:  []string{"pset", "pset", "pset", "pclear", "rootset", "cinc", "tedit", "oset"},
+			SchedOps: sched, SyncWeight: 8, OfflineBias: true, Snapshots: snap,
 		})
 	}
 	a, b := mk(true), mk(false)
